@@ -309,7 +309,7 @@ pub fn run(ctx: &mut Ctx) {
     );
     ctx.add_class("components:names-checked", ctotal);
     ctx.exhaustive_all = true;
-    let n = ctx.q(2000, 50000);
+    let n = ctx.q(20000, 300000);
     ctx.explore::<Vec<String>>(
         "random",
         n,
